@@ -39,7 +39,7 @@ def draw_rule(r, regexes, ops, p_good=0.65, p_star=None):
     cfg = r.choice(A.likely_good_configs(op, algo))
   else:
     cfg = r.choice(A.CONFIG_NAMES)
-  return [r.choice(regexes), op, cfg, algo]
+  return [r.choice(regexes), op, cfg, A.bogus_spelling(r, algo)]
 
 
 def generate(rseed, tier='quick'):
@@ -300,7 +300,7 @@ def execute(doc):
       if outcome == 'accepted':
         how = mg.model.add(op['regex'], op['operation'], cfg, op['algorithm'])
         rec.probe('add_' + how)
-        if op['algorithm'] == A.BOGUS:
+        if op['algorithm'] in (A.BOGUS, A.BOGUS_UPPER):
           rec.fault('unregistered_algorithm_accepted')
         accepted += 1
         rec.event(step, 'add', 'accepted', how)
